@@ -25,7 +25,7 @@ RULES = ['pkg.base', 'pkg.base.Base', 'pkg.base.Base.m', 'pkg.base.Base.other', 
 def projects(draw: Any) -> Dict[str, Any]:
     fmt = draw(st.sampled_from(['epytext', 'epytext', 'restructuredtext', 'google', 'numpy', 'plaintext']))
     x = XREF[fmt]
-    f = {k: draw(st.booleans()) for k in ['reexport', 'dup', 'nonascii', 'nested', 'iface', 'override', 'inherit_doc', 'private', 'const', 'deep', 'xref_hidden', 'second_root', 'alias_base', 'prop', 'samename', 'multi_iface', 'dunder_main', 'caseclash']}
+    f = {k: draw(st.booleans()) for k in ['reexport', 'dup', 'nonascii', 'nested', 'iface', 'override', 'inherit_doc', 'private', 'const', 'deep', 'xref_hidden', 'second_root', 'alias_base', 'prop', 'samename', 'multi_iface', 'dunder_main', 'caseclash', 'star_reexport']}
     base: List[str] = ['"""Base module, see %s."""' % x('Base')]
     base += ['class Base:', '    """Base class. See %s and %s."""' % (x('helper'), x('Base.other'))]
     base += ['    def m(self, a=None):', '        """Method m, see %s and %s and %s."""' % (x('other'), x('helper'), x('Base'))]
@@ -81,6 +81,18 @@ def projects(draw: Any) -> Dict[str, Any]:
             'class IBuf(Interface):\n    def close():\n        """close of IBuf"""\n'
             '@implementer(IReader)\nclass R:\n    pass\n@implementer(IWriter)\nclass W:\n    pass\n@implementer(ISeek, IBuf)\nclass S:\n    pass\n'
             'class Stream(R, W, S):\n    """inherits four interfaces"""\n    def close(self):\n        pass\n    def read(self):\n        pass\n')
+    if f['star_reexport']:
+        # several names brought in by one star import of a module without __all__ and re-exported together: the order in which
+        # they are moved must not depend on the iteration order of a set
+        files['pkg/_star.py'] = ('"""star source, see %s"""\nfrom .base import Base\nclass Alpha(Base):\n    """alpha, see %s"""\nclass Bravo(Alpha):\n    """bravo"""\n    def m(self, a=None):\n        pass\n'
+                                 'class Charlie(Bravo):\n    """charlie"""\nclass Delta(Base):\n    """delta"""\ndef echo():\n    """echo"""\nFOXTROT = 1\n"""foxtrot"""\n' % (x('Alpha'), x('Bravo')))
+        init += ['from ._star import *']
+        allnames = ['Alpha', 'Bravo', 'Charlie', 'Delta', 'echo', 'FOXTROT']
+        if any(l.startswith('__all__') for l in init):
+            init[:] = [(l[:-1] + ', ' + ', '.join(repr(n) for n in allnames) + ']') if l.startswith('__all__') else l for l in init]
+        else:
+            init += ['__all__ = [%s]' % ', '.join(repr(n) for n in allnames)]
+        files['pkg/__init__.py'] = '\n'.join(init) + '\n'
     if f['dunder_main']:
         # a module named __main__ is private whatever its name looks like
         files['pkg/__main__.py'] = ('"""entry point, see %s"""\nfrom .base import Base\nclass Runner(Base):\n    """runner"""\n    def run(self):\n        """see %s"""\n'
